@@ -213,7 +213,11 @@ Definition observe (w0 : world) (r : res exn retv) (w1 : world) (pos : Z) : list
   ++ flat_map (fun c => flat_acall c ++ [-88888]) (since (acalls w1) (acalls w0)) ++ [SEP]
   ++ flat_map (fun a => [fst a; b2z (snd a)]) (since (attempts w1) (attempts w0)) ++ [SEP]
   ++ [oz (volume w1); match mute w1 with Some b => b2z b | None => -1 end; zlen (history w1);
-      zlen (queue w1); oz (a_uri w1); ps_code (a_state w1); bcalls w1 - bcalls w0].
+      zlen (queue w1); oz (a_uri w1); ps_code (a_state w1); bcalls w1 - bcalls w0] ++ [SEP]
+  (* bookkeeping that decides later behaviour: the shuffle order and the seek/restore/previous flags *)
+  ++ map tlid (shuffled w1) ++ [SEP]
+  ++ [oz (pending_position w1); oz (last_position w1); b2z (previous_flag w1); b2z (start_paused w1);
+      oz (start_at_position w1)].
 
 (* One step: run the op, then read the time position the way a client would (the read is a
    backend interaction but changes nothing else). *)
